@@ -5,7 +5,7 @@ use serde_json::json;
 
 use crate::c01::one_line;
 use crate::eng;
-use crate::gen::{self, e, list, Body, Entry, RuleSpec, Val};
+use crate::gen::{self, e, int, list, st, Body, Entry, RuleSpec, Val};
 use crate::report::{Report, Rng, Stats, Tier, Violation};
 
 fn permutations(n: usize) -> Vec<Vec<usize>> {
@@ -188,6 +188,46 @@ pub fn run(tier: Tier) -> i32 {
                                 .collect(),
                             cond: p.iter().map(|i| names[*i]).collect::<Vec<_>>().join(&format!(" {} ", op)),
                         }
+                    }),
+                });
+            }
+        }
+    }
+    // entries of a row inside a sequence whose other row shares a field (the or-group becomes a
+    // matrix); rows may constrain one field twice through different key forms
+    let cells: Vec<Entry> = vec![
+        e("f", st("a*")),
+        e("str(f)", st("*b")),
+        e("g", st("x")),
+        e("int(g)", st(">=1")),
+        e("g", st("<3")),
+        e("n", gen::map(vec![e("x", st("a"))])),
+        e("not(f)", st("ab")),
+        e("h", int(1)),
+    ];
+    let others: Vec<Vec<Entry>> = vec![vec![e("f", st("*a*"))], vec![e("g", int(2)), e("f", st("b*"))], vec![e("h", int(2))]];
+    for k in 2..=3usize {
+        for c in combos(&cells, k) {
+            if !distinct_keys(&c) {
+                continue;
+            }
+            for o in &others {
+                let c1 = c.clone();
+                let o1 = o.clone();
+                positions.push(Position {
+                    kind: "row-entries-in-a-sequence".into(),
+                    arity: k,
+                    build: Box::new(move |p| {
+                        RuleSpec::one(Body::Seq(vec![p.iter().map(|i| c1[*i].clone()).collect(), o1.clone()]))
+                    }),
+                });
+                let c2 = c.clone();
+                let o2 = o.clone();
+                positions.push(Position {
+                    kind: "row-entries-in-a-sequence".into(),
+                    arity: k,
+                    build: Box::new(move |p| {
+                        RuleSpec::one(Body::Seq(vec![o2.clone(), p.iter().map(|i| c2[*i].clone()).collect(), vec![e("f", st("zz"))]]))
                     }),
                 });
             }
